@@ -170,6 +170,33 @@ func init() {
 		if fd := funcDecl("File", "MoveSheet"); fd != nil {
 			fmt.Fprintf(w, "def moveRenumbersLocalSheetId : Bool := %v\n", strings.Contains(src(fd.Body), "LocalSheetID = intPtr(localSheetID)"))
 		}
+		// NewSheet skips sheet ids whose part already exists (package store or decoded worksheets)
+		if fd := funcDecl("File", "NewSheet"); fd == nil {
+			fail("func NewSheet")
+		} else {
+			b := src(fd.Body)
+			fmt.Fprintf(w, "def newSheetSkipsExistingParts : Bool := %v\n",
+				strings.Contains(b, "_, inPkg := f.Pkg.Load(sheetXMLPath)") && strings.Contains(b, "_, inSheet := f.Sheet.Load(sheetXMLPath)") &&
+					strings.Contains(b, "if !inPkg && !inSheet {"))
+		}
+		// SetDefinedName resolves the scope once (getDefinedNameScope) and compares local sheet ids
+		fdS, fdG := funcDecl("File", "SetDefinedName"), funcDecl("File", "getDefinedNameScope")
+		if fdS == nil || fdG == nil {
+			fail("func SetDefinedName / getDefinedNameScope")
+		} else {
+			b, g := src(fdS.Body), src(fdG.Body)
+			fmt.Fprintf(w, "def definedNameScopeResolved : Bool := %v\n",
+				strings.Contains(b, "f.getDefinedNameScope(definedName.Scope)") &&
+					strings.Contains(b, "sameDefinedNameScope(dn.LocalSheetID, d.LocalSheetID) && strings.EqualFold(dn.Name, definedName.Name)") &&
+					strings.Contains(g, "f.GetSheetIndex(scope)") && strings.Contains(g, "if sheetIndex < 0 {"))
+			wbName := ""
+			if m := regexp.MustCompile(`scope == "" \|\| scope == "([^"]*)"`).FindStringSubmatch(g); m != nil {
+				wbName = m[1]
+			} else {
+				fail("getDefinedNameScope: scope == \"\" || scope == <literal>")
+			}
+			fmt.Fprintf(w, "def workbookScopeName : String := %s\n", leanStr(wbName))
+		}
 		if fd := funcDecl("File", "copySheet"); fd == nil {
 			fail("func copySheet")
 		} else {
